@@ -515,6 +515,14 @@ func (s *Session) ResizeProbe(r *RNG) {
 	if after.MaxPages != newMax {
 		s.fail("C14", "resize-limit", "%s: max pages is %d, expected %d", label, after.MaxPages, newMax)
 	}
+	// the limit a later plain open reports is the one in the file header (an open that passes the
+	// limit again in its options would only impose it for its own session)
+	if hm := after.Meta[after.MetaActive].MaxSize; after.MappedLen > 0 && hm != newMax*ps {
+		s.fail("C14", "resize-persist", "%s from %d to %d pages: the file header stores max size %d (%d pages), a later plain open reports that instead of %d", label, oldMax, newMax, hm, hm/ps, newMax*ps)
+	}
+	if oldMax == 0 && newMax > 0 {
+		s.mark("resize-bound-unbounded")
+	}
 	availOf := func(fs txfile.VerifSnap) uint64 {
 		a := fs.DataAvail
 		if fs.DataEnd < fs.MaxPages {
